@@ -53,6 +53,16 @@ type Contract struct {
 	Abstract  bool // failures of safety obligations are not alarms (abstracted)
 	Thread    bool
 	LockHeld  []string // requires lock tokens
+	GhostSets []*GhostSet
+}
+
+// GhostSet is ghost code executed at every return: set G[idx] = val (or G = val).
+type GhostSet struct {
+	Ghost string
+	Idx   ast.Expr // nil for scalar ghosts
+	Val   ast.Expr
+	Src   string
+	Line  int
 }
 
 type CallAssert struct {
@@ -84,6 +94,7 @@ type Spec struct {
 	SpecFuns  map[string]*SpecFun
 	Axioms    []*Clause
 	Ghosts    map[string]string // name -> Go type text
+	AllocInits map[string][]*GhostSet // Go type text -> ghost initialisation at allocation
 	Lemmas    []*Lemma
 	Rules     []*Rule
 	Order     []string
@@ -129,7 +140,7 @@ var keywords = map[string]bool{
 	"assumed": true, "pure": true, "specfun": true, "specdef": true, "axiom": true, "ghost": true,
 	"lemma": true, "var": true, "hyp": true, "concl": true, "callassert": true, "nocanary": true,
 	"sweep": true, "note": true, "rule": true, "abstract": true, "free": true, "end": true, "thread": true,
-	"allocbound": true, "results": true,
+	"allocbound": true, "results": true, "atreturn": true, "guarded": true, "allocinit": true,
 }
 
 func (sp *Spec) parseFile(path string) error {
@@ -310,6 +321,34 @@ func (sp *Spec) parseFile(path string) error {
 				return err
 			}
 			cur.Loops[k] = append(cur.Loops[k], c)
+		case "atreturn":
+			// atreturn set G[idx] = expr   |  atreturn set G = expr
+			if cur == nil {
+				return fmt.Errorf("%s:%d: atreturn outside func", path, rc.line)
+			}
+			txt := strings.TrimSpace(strings.TrimPrefix(strings.TrimSpace(rc.text), "set"))
+			k := findTop(txt, " = ")
+			if k < 0 {
+				return fmt.Errorf("%s:%d: atreturn set G[i] = e", path, rc.line)
+			}
+			lhs, rhs := strings.TrimSpace(txt[:k]), strings.TrimSpace(txt[k+3:])
+			gs := &GhostSet{Src: txt, Line: rc.line}
+			if b := strings.Index(lhs, "["); b >= 0 {
+				gs.Ghost = strings.TrimSpace(lhs[:b])
+				ie, err := parseSpecExpr(lhs[b+1 : strings.LastIndex(lhs, "]")])
+				if err != nil {
+					return fmt.Errorf("%s:%d: %v", path, rc.line, err)
+				}
+				gs.Idx = ie
+			} else {
+				gs.Ghost = lhs
+			}
+			ve, err := parseSpecExpr(rhs)
+			if err != nil {
+				return fmt.Errorf("%s:%d: %v", path, rc.line, err)
+			}
+			gs.Val = ve
+			cur.GhostSets = append(cur.GhostSets, gs)
 		case "callassert":
 			// callassert <callee>[#k] [after] : expr
 			if cur == nil && curRule == nil {
@@ -356,6 +395,40 @@ func (sp *Spec) parseFile(path string) error {
 				return fmt.Errorf("%s:%d: ghost NAME TYPE", path, rc.line)
 			}
 			sp.Ghosts[parts[0]] = parts[1]
+		case "allocinit":
+			// allocinit <GoType> : G[this] = expr
+			cur, curLemma, curRule = nil, nil, nil
+			k := strings.Index(rc.text, ":")
+			if k < 0 {
+				return fmt.Errorf("%s:%d: allocinit TYPE : G[this] = e", path, rc.line)
+			}
+			typ := strings.TrimSpace(rc.text[:k])
+			txt := strings.TrimSpace(rc.text[k+1:])
+			e := findTop(txt, " = ")
+			if e < 0 {
+				return fmt.Errorf("%s:%d: allocinit needs ' = '", path, rc.line)
+			}
+			lhs, rhs := strings.TrimSpace(txt[:e]), strings.TrimSpace(txt[e+3:])
+			gs := &GhostSet{Src: txt, Line: rc.line}
+			if b := strings.Index(lhs, "["); b >= 0 {
+				gs.Ghost = strings.TrimSpace(lhs[:b])
+				ie, err := parseSpecExpr(lhs[b+1 : strings.LastIndex(lhs, "]")])
+				if err != nil {
+					return fmt.Errorf("%s:%d: %v", path, rc.line, err)
+				}
+				gs.Idx = ie
+			} else {
+				gs.Ghost = lhs
+			}
+			ve, err := parseSpecExpr(rhs)
+			if err != nil {
+				return fmt.Errorf("%s:%d: %v", path, rc.line, err)
+			}
+			gs.Val = ve
+			if sp.AllocInits == nil {
+				sp.AllocInits = map[string][]*GhostSet{}
+			}
+			sp.AllocInits[typ] = append(sp.AllocInits[typ], gs)
 		case "lemma":
 			cur, curRule = nil, nil
 			curLemma = &Lemma{Name: strings.TrimSpace(rc.text), File: path, Line: rc.line}
